@@ -133,8 +133,12 @@ package decorator
 //@ func (r *FileRestorer) restoreNode
 //@ requires inv: r.inv()
 //@ requires maps: r.mapsInv()
+//@ requires objects: r.robjMapsInv()
 //@ tracks inv: r.inv()
 //@ tracks maps: r.mapsInv()
+//@ tracks objects: r.robjMapsInv()
+//@ tracks robjects_grow: forall k *dst.Object :: {has(r.Ast.Objects, k)} old(has(r.Ast.Objects, k)) ==> has(r.Ast.Objects, k) && r.Ast.Objects[k] == old(r.Ast.Objects[k])
+//@ tracks rscopes_grow: forall k *dst.Scope :: {has(r.Ast.Scopes, k)} old(has(r.Ast.Scopes, k)) ==> has(r.Ast.Scopes, k) && r.Ast.Scopes[k] == old(r.Ast.Scopes[k])
 //@ tracks cursor_monotone: r.cursor >= old(r.cursor)
 //@ tracks lines_prefix: len(r.lines) >= old(len(r.lines)) && (forall j int :: 0 <= j && j < old(len(r.lines)) ==> r.lines[j] == old(r.lines[j]))
 //@ tracks comments_prefix: len(r.comments) >= old(len(r.comments)) && (forall j int :: 0 <= j && j < old(len(r.comments)) ==> r.comments[j] == old(r.comments[j]))
@@ -145,6 +149,9 @@ package decorator
 //@ modifies r.cursor, r.lines, r.cursorAtNewLine, r.comments, elems(int), elems(*ast.CommentGroup), elems(*ast.Comment), heap(ast.Field.Comment), heap(ast.ImportSpec.Comment), heap(ast.ValueSpec.Comment), heap(ast.TypeSpec.Comment), heap(ast.CommentGroup.List), heap(ast.Comment.Slash), heap(ast.Comment.Text), map(dst.Node, ast.Node), map(ast.Node, dst.Node), map(*dst.Object, *ast.Object), map(*ast.Object, *dst.Object), map(*dst.Scope, *ast.Scope), map(*ast.Scope, *dst.Scope), map(*ast.Object, dst.Node), newobjects
 //@ ensures inv: r.inv()
 //@ ensures maps: r.mapsInv()
+//@ ensures objects: r.robjMapsInv()
+//@ ensures robjects_grow: forall k *dst.Object :: {has(r.Ast.Objects, k)} old(has(r.Ast.Objects, k)) ==> has(r.Ast.Objects, k) && r.Ast.Objects[k] == old(r.Ast.Objects[k])
+//@ ensures rscopes_grow: forall k *dst.Scope :: {has(r.Ast.Scopes, k)} old(has(r.Ast.Scopes, k)) ==> has(r.Ast.Scopes, k) && r.Ast.Scopes[k] == old(r.Ast.Scopes[k])
 //@ ensures cursor_monotone: r.cursor >= old(r.cursor)
 //@ ensures lines_prefix: len(r.lines) >= old(len(r.lines)) && (forall j int :: 0 <= j && j < old(len(r.lines)) ==> r.lines[j] == old(r.lines[j]))
 //@ ensures comments_prefix: len(r.comments) >= old(len(r.comments)) && (forall j int :: 0 <= j && j < old(len(r.comments)) ==> r.comments[j] == old(r.comments[j]))
@@ -163,6 +170,9 @@ package decorator
 //@ foreach invariant old_rows: rowsKeptSinceLoopEntry()
 //@ foreach invariant inv: r.inv()
 //@ foreach invariant maps: r.mapsInv()
+//@ foreach invariant objects: r.robjMapsInv()
+//@ foreach invariant robjects_grow: forall k *dst.Object :: {has(r.Ast.Objects, k)} entry(has(r.Ast.Objects, k)) ==> has(r.Ast.Objects, k) && r.Ast.Objects[k] == entry(r.Ast.Objects[k])
+//@ foreach invariant rscopes_grow: forall k *dst.Scope :: {has(r.Ast.Scopes, k)} entry(has(r.Ast.Scopes, k)) ==> has(r.Ast.Scopes, k) && r.Ast.Scopes[k] == entry(r.Ast.Scopes[k])
 //@ foreach invariant cursor_monotone: r.cursor >= entry(r.cursor)
 //@ foreach invariant lines_prefix: len(r.lines) >= entry(len(r.lines)) && (forall j int :: 0 <= j && j < entry(len(r.lines)) ==> r.lines[j] == entry(r.lines[j]))
 //@ foreach invariant comments_prefix: len(r.comments) >= entry(len(r.comments)) && (forall j int :: 0 <= j && j < entry(len(r.comments)) ==> r.comments[j] == entry(r.comments[j]))
@@ -170,8 +180,22 @@ package decorator
 //@ foreach invariant ast_map_grows: forall k dst.Node :: {has(r.Ast.Nodes, k)} entry(has(r.Ast.Nodes, k)) ==> has(r.Ast.Nodes, k) && r.Ast.Nodes[k] == entry(r.Ast.Nodes[k])
 //@ foreach invariant dst_map_grows: forall k ast.Node :: {has(r.Dst.Nodes, k)} entry(has(r.Dst.Nodes, k)) ==> has(r.Dst.Nodes, k) && r.Dst.Nodes[k] == entry(r.Dst.Nodes[k])
 //@ case Package
+//@ loop 1 invariant registered: has(r.Ast.Nodes, $arg_n) && typeof(r.Ast.Nodes[$arg_n]) == type(*ast.Package) && !wasAllocated(ref(r.Ast.Nodes[$arg_n]))
+//@ loop 1 invariant imports_extras_off: !r.Extras ==> (forall k string :: has(cast(r.Ast.Nodes[$arg_n], type(*ast.Package)).Imports, k) ==> cast(r.Ast.Nodes[$arg_n], type(*ast.Package)).Imports[k] == nil)
+//@ loop 1 invariant scope_kept: r.Extras ==> (cast($arg_n, type(*dst.Package)).Scope == nil ? cast(r.Ast.Nodes[$arg_n], type(*ast.Package)).Scope == nil : has(r.Ast.Scopes, cast($arg_n, type(*dst.Package)).Scope) && cast(r.Ast.Nodes[$arg_n], type(*ast.Package)).Scope == r.Ast.Scopes[cast($arg_n, type(*dst.Package)).Scope])
+//@ loop 1 invariant imports_so_far: forall k string :: has(cast(r.Ast.Nodes[$arg_n], type(*ast.Package)).Imports, k) == $visited[k]
+//@ loop 1 invariant imports_visited: forall k string :: $visited[k] ==> has(cast($arg_n, type(*dst.Package)).Imports, k)
+//@ loop 1 invariant imports_members: r.Extras ==> (forall k string :: has(cast(r.Ast.Nodes[$arg_n], type(*ast.Package)).Imports, k) && cast($arg_n, type(*dst.Package)).Imports[k] != nil ==> has(r.Ast.Objects, cast($arg_n, type(*dst.Package)).Imports[k]) && cast(r.Ast.Nodes[$arg_n], type(*ast.Package)).Imports[k] == r.Ast.Objects[cast($arg_n, type(*dst.Package)).Imports[k]])
+//@ loop 2 invariant registered: has(r.Ast.Nodes, $arg_n) && typeof(r.Ast.Nodes[$arg_n]) == type(*ast.Package) && !wasAllocated(ref(r.Ast.Nodes[$arg_n]))
+//@ loop 2 invariant imports_extras_off: !r.Extras ==> (forall k string :: has(cast(r.Ast.Nodes[$arg_n], type(*ast.Package)).Imports, k) ==> cast(r.Ast.Nodes[$arg_n], type(*ast.Package)).Imports[k] == nil)
+//@ loop 2 invariant scope_kept: r.Extras ==> (cast($arg_n, type(*dst.Package)).Scope == nil ? cast(r.Ast.Nodes[$arg_n], type(*ast.Package)).Scope == nil : has(r.Ast.Scopes, cast($arg_n, type(*dst.Package)).Scope) && cast(r.Ast.Nodes[$arg_n], type(*ast.Package)).Scope == r.Ast.Scopes[cast($arg_n, type(*dst.Package)).Scope])
+//@ loop 2 invariant imports_names: forall k string :: has(cast(r.Ast.Nodes[$arg_n], type(*ast.Package)).Imports, k) == has(cast($arg_n, type(*dst.Package)).Imports, k)
+//@ loop 2 invariant imports_members: r.Extras ==> (forall k string :: has(cast(r.Ast.Nodes[$arg_n], type(*ast.Package)).Imports, k) && cast($arg_n, type(*dst.Package)).Imports[k] != nil ==> has(r.Ast.Objects, cast($arg_n, type(*dst.Package)).Imports[k]) && cast(r.Ast.Nodes[$arg_n], type(*ast.Package)).Imports[k] == r.Ast.Objects[cast($arg_n, type(*dst.Package)).Imports[k]])
 //@ loop 1 invariant inv: r.inv()
 //@ loop 1 invariant maps: r.mapsInv()
+//@ loop 1 invariant objects: r.robjMapsInv()
+//@ loop 1 invariant robjects_grow: forall k *dst.Object :: {has(r.Ast.Objects, k)} entry(has(r.Ast.Objects, k)) ==> has(r.Ast.Objects, k) && r.Ast.Objects[k] == entry(r.Ast.Objects[k])
+//@ loop 1 invariant rscopes_grow: forall k *dst.Scope :: {has(r.Ast.Scopes, k)} entry(has(r.Ast.Scopes, k)) ==> has(r.Ast.Scopes, k) && r.Ast.Scopes[k] == entry(r.Ast.Scopes[k])
 //@ loop 1 invariant cursor_monotone: r.cursor >= entry(r.cursor)
 //@ loop 1 invariant lines_prefix: len(r.lines) >= entry(len(r.lines)) && (forall j int :: 0 <= j && j < entry(len(r.lines)) ==> r.lines[j] == entry(r.lines[j]))
 //@ loop 1 invariant comments_prefix: len(r.comments) >= entry(len(r.comments)) && (forall j int :: 0 <= j && j < entry(len(r.comments)) ==> r.comments[j] == entry(r.comments[j]))
@@ -180,6 +204,9 @@ package decorator
 //@ loop 1 invariant dst_map_grows: forall k ast.Node :: {has(r.Dst.Nodes, k)} entry(has(r.Dst.Nodes, k)) ==> has(r.Dst.Nodes, k) && r.Dst.Nodes[k] == entry(r.Dst.Nodes[k])
 //@ loop 2 invariant inv: r.inv()
 //@ loop 2 invariant maps: r.mapsInv()
+//@ loop 2 invariant objects: r.robjMapsInv()
+//@ loop 2 invariant robjects_grow: forall k *dst.Object :: {has(r.Ast.Objects, k)} entry(has(r.Ast.Objects, k)) ==> has(r.Ast.Objects, k) && r.Ast.Objects[k] == entry(r.Ast.Objects[k])
+//@ loop 2 invariant rscopes_grow: forall k *dst.Scope :: {has(r.Ast.Scopes, k)} entry(has(r.Ast.Scopes, k)) ==> has(r.Ast.Scopes, k) && r.Ast.Scopes[k] == entry(r.Ast.Scopes[k])
 //@ loop 2 invariant cursor_monotone: r.cursor >= entry(r.cursor)
 //@ loop 2 invariant lines_prefix: len(r.lines) >= entry(len(r.lines)) && (forall j int :: 0 <= j && j < entry(len(r.lines)) ==> r.lines[j] == entry(r.lines[j]))
 //@ loop 2 invariant comments_prefix: len(r.comments) >= entry(len(r.comments)) && (forall j int :: 0 <= j && j < entry(len(r.comments)) ==> r.comments[j] == entry(r.comments[j]))
@@ -195,13 +222,92 @@ package decorator
 //@ case BadStmt
 //@ assumes length_nonnegative: forall b *dst.BadStmt :: b.Length >= 0
 
+
+//@ pred (r *FileRestorer) robjMapsEntry() bool {
+//@   r.Ast.Objects != nil && r.Dst.Objects != nil && r.Ast.Scopes != nil && r.Dst.Scopes != nil &&
+//@   (forall o *dst.Object :: {has(r.Ast.Objects, o)} has(r.Ast.Objects, o) ==> o != nil && allocated(o) && r.Ast.Objects[o] != nil && allocated(r.Ast.Objects[o])) &&
+//@   (forall s *dst.Scope :: {has(r.Ast.Scopes, s)} has(r.Ast.Scopes, s) ==> s != nil && allocated(s) && r.Ast.Scopes[s] != nil && allocated(r.Ast.Scopes[s])) &&
+//@   (forall a *ast.Object :: {has(r.Dst.Objects, a)} has(r.Dst.Objects, a) ==> allocated(a)) &&
+//@   (forall a *ast.Scope :: {has(r.Dst.Scopes, a)} has(r.Dst.Scopes, a) ==> allocated(a))
+//@ }
+//@ pred (r *FileRestorer) robjMapsInv() bool {
+//@   r.robjMapsEntry() && r.nodeDecl != nil && r.nodeData != nil && r.nodeDecl != r.nodeData &&
+//@   (forall a *ast.Object :: {has(r.nodeDecl, a)} has(r.nodeDecl, a) ==> allocated(a)) &&
+//@   (forall a *ast.Object :: {has(r.nodeData, a)} has(r.nodeData, a) ==> allocated(a))
+//@ }
+
 //@ func (r *FileRestorer) restoreObject
+//@ requires objects: r.robjMapsInv()
+//@ tracks objects: r.robjMapsInv()
+//@ tracks robjects_grow: forall k *dst.Object :: {has(r.Ast.Objects, k)} old(has(r.Ast.Objects, k)) ==> has(r.Ast.Objects, k) && r.Ast.Objects[k] == old(r.Ast.Objects[k])
+//@ tracks rscopes_grow: forall k *dst.Scope :: {has(r.Ast.Scopes, k)} old(has(r.Ast.Scopes, k)) ==> has(r.Ast.Scopes, k) && r.Ast.Scopes[k] == old(r.Ast.Scopes[k])
+//@ tracks rback_objects_grow: forall k *ast.Object :: {has(r.Dst.Objects, k)} old(has(r.Dst.Objects, k)) ==> has(r.Dst.Objects, k) && r.Dst.Objects[k] == old(r.Dst.Objects[k])
+//@ tracks rback_scopes_grow: forall k *ast.Scope :: {has(r.Dst.Scopes, k)} old(has(r.Dst.Scopes, k)) ==> has(r.Dst.Scopes, k) && r.Dst.Scopes[k] == old(r.Dst.Scopes[k])
+//@ tracks node_decl_grows: forall k *ast.Object :: {has(r.nodeDecl, k)} old(has(r.nodeDecl, k)) ==> has(r.nodeDecl, k) && r.nodeDecl[k] == old(r.nodeDecl[k])
+//@ tracks node_data_grows: forall k *ast.Object :: {has(r.nodeData, k)} old(has(r.nodeData, k)) ==> has(r.nodeData, k) && r.nodeData[k] == old(r.nodeData[k])
+//@ tracks deferred_keys_fresh: forall a *ast.Object :: {has(r.nodeDecl, a)} {has(r.nodeData, a)} (has(r.nodeDecl, a) && !old(has(r.nodeDecl, a)) ==> !wasAllocated(a)) && (has(r.nodeData, a) && !old(has(r.nodeData, a)) ==> !wasAllocated(a))
 //@ modifies map(*dst.Object, *ast.Object), map(*ast.Object, *dst.Object), map(*dst.Scope, *ast.Scope), map(*ast.Scope, *dst.Scope), map(*ast.Object, dst.Node), newobjects
+//@ ensures objects: r.robjMapsInv()
 //@ ensures extras_off: !r.Extras ==> result == nil
+//@ ensures nil_in_nil_out: o == nil ==> result == nil
+//@ ensures memo_hit: r.Extras && o != nil && old(has(r.Ast.Objects, o)) ==> result == old(r.Ast.Objects[o])
+//@ ensures registered: r.Extras && o != nil ==> has(r.Ast.Objects, o) && r.Ast.Objects[o] == result
+//@ ensures registered_back: r.Extras && o != nil && !old(has(r.Ast.Objects, o)) ==> !wasAllocated(result) && has(r.Dst.Objects, result) && r.Dst.Objects[result] == o
+//@ ensures kind_and_name: r.Extras && o != nil && !old(has(r.Ast.Objects, o)) ==> result.Kind == o.Kind && result.Name == o.Name
+//@ ensures data_int: r.Extras && o != nil && !old(has(r.Ast.Objects, o)) && typeof(o.Data) == type(int) ==> result.Data == o.Data
+//@ ensures data_scope: r.Extras && o != nil && !old(has(r.Ast.Objects, o)) && typeof(o.Data) == type(*dst.Scope) ==> typeof(result.Data) == type(*ast.Scope) && ref(result.Data) == r.Ast.Scopes[cast(o.Data, type(*dst.Scope))]
+//@ ensures decl_scope: r.Extras && o != nil && !old(has(r.Ast.Objects, o)) && typeof(o.Decl) == type(*dst.Scope) ==> typeof(result.Decl) == type(*ast.Scope) && ref(result.Decl) == r.Ast.Scopes[cast(o.Decl, type(*dst.Scope))]
+//@ ensures decl_node_deferred: r.Extras && o != nil && !old(has(r.Ast.Objects, o)) && implements(o.Decl, type(dst.Node)) ==> has(r.nodeDecl, result) && r.nodeDecl[result] == o.Decl
+//@ ensures data_node_deferred: r.Extras && o != nil && !old(has(r.Ast.Objects, o)) && implements(o.Data, type(dst.Node)) ==> has(r.nodeData, result) && r.nodeData[result] == o.Data
+//@ ensures no_decl_no_entry: r.Extras && o != nil && !old(has(r.Ast.Objects, o)) && o.Decl == nil ==> result.Decl == nil && !has(r.nodeDecl, result)
+//@ ensures robjects_grow: forall k *dst.Object :: {has(r.Ast.Objects, k)} old(has(r.Ast.Objects, k)) ==> has(r.Ast.Objects, k) && r.Ast.Objects[k] == old(r.Ast.Objects[k])
+//@ ensures rscopes_grow: forall k *dst.Scope :: {has(r.Ast.Scopes, k)} old(has(r.Ast.Scopes, k)) ==> has(r.Ast.Scopes, k) && r.Ast.Scopes[k] == old(r.Ast.Scopes[k])
+//@ ensures rback_objects_grow: forall k *ast.Object :: {has(r.Dst.Objects, k)} old(has(r.Dst.Objects, k)) ==> has(r.Dst.Objects, k) && r.Dst.Objects[k] == old(r.Dst.Objects[k])
+//@ ensures rback_scopes_grow: forall k *ast.Scope :: {has(r.Dst.Scopes, k)} old(has(r.Dst.Scopes, k)) ==> has(r.Dst.Scopes, k) && r.Dst.Scopes[k] == old(r.Dst.Scopes[k])
+//@ ensures node_decl_grows: forall k *ast.Object :: {has(r.nodeDecl, k)} old(has(r.nodeDecl, k)) ==> has(r.nodeDecl, k) && r.nodeDecl[k] == old(r.nodeDecl[k])
+//@ ensures node_data_grows: forall k *ast.Object :: {has(r.nodeData, k)} old(has(r.nodeData, k)) ==> has(r.nodeData, k) && r.nodeData[k] == old(r.nodeData[k])
+//@ ensures deferred_keys_fresh: forall a *ast.Object :: {has(r.nodeDecl, a)} {has(r.nodeData, a)} (has(r.nodeDecl, a) && !old(has(r.nodeDecl, a)) ==> !wasAllocated(a)) && (has(r.nodeData, a) && !old(has(r.nodeData, a)) ==> !wasAllocated(a))
 
 //@ func (r *FileRestorer) restoreScope
+//@ requires objects: r.robjMapsInv()
+//@ tracks objects: r.robjMapsInv()
+//@ tracks robjects_grow: forall k *dst.Object :: {has(r.Ast.Objects, k)} old(has(r.Ast.Objects, k)) ==> has(r.Ast.Objects, k) && r.Ast.Objects[k] == old(r.Ast.Objects[k])
+//@ tracks rscopes_grow: forall k *dst.Scope :: {has(r.Ast.Scopes, k)} old(has(r.Ast.Scopes, k)) ==> has(r.Ast.Scopes, k) && r.Ast.Scopes[k] == old(r.Ast.Scopes[k])
+//@ tracks rback_objects_grow: forall k *ast.Object :: {has(r.Dst.Objects, k)} old(has(r.Dst.Objects, k)) ==> has(r.Dst.Objects, k) && r.Dst.Objects[k] == old(r.Dst.Objects[k])
+//@ tracks rback_scopes_grow: forall k *ast.Scope :: {has(r.Dst.Scopes, k)} old(has(r.Dst.Scopes, k)) ==> has(r.Dst.Scopes, k) && r.Dst.Scopes[k] == old(r.Dst.Scopes[k])
+//@ tracks node_decl_grows: forall k *ast.Object :: {has(r.nodeDecl, k)} old(has(r.nodeDecl, k)) ==> has(r.nodeDecl, k) && r.nodeDecl[k] == old(r.nodeDecl[k])
+//@ tracks node_data_grows: forall k *ast.Object :: {has(r.nodeData, k)} old(has(r.nodeData, k)) ==> has(r.nodeData, k) && r.nodeData[k] == old(r.nodeData[k])
+//@ tracks deferred_keys_fresh: forall a *ast.Object :: {has(r.nodeDecl, a)} {has(r.nodeData, a)} (has(r.nodeDecl, a) && !old(has(r.nodeDecl, a)) ==> !wasAllocated(a)) && (has(r.nodeData, a) && !old(has(r.nodeData, a)) ==> !wasAllocated(a))
 //@ modifies map(*dst.Object, *ast.Object), map(*ast.Object, *dst.Object), map(*dst.Scope, *ast.Scope), map(*ast.Scope, *dst.Scope), map(*ast.Object, dst.Node), newobjects
+//@ ensures objects: r.robjMapsInv()
 //@ ensures extras_off: !r.Extras ==> result == nil
+//@ ensures nil_in_nil_out: s == nil ==> result == nil
+//@ ensures memo_hit: r.Extras && s != nil && old(has(r.Ast.Scopes, s)) ==> result == old(r.Ast.Scopes[s])
+//@ ensures registered: r.Extras && s != nil ==> has(r.Ast.Scopes, s) && r.Ast.Scopes[s] == result
+//@ ensures registered_back: r.Extras && s != nil && !old(has(r.Ast.Scopes, s)) ==> !wasAllocated(result) && has(r.Dst.Scopes, result) && r.Dst.Scopes[result] == s
+//@ ensures outer: r.Extras && s != nil && !old(has(r.Ast.Scopes, s)) ==> (s.Outer == nil ? result.Outer == nil : has(r.Ast.Scopes, s.Outer) && result.Outer == r.Ast.Scopes[s.Outer])
+//@ ensures same_names: r.Extras && s != nil && !old(has(r.Ast.Scopes, s)) ==> (forall k string :: has(result.Objects, k) == has(s.Objects, k))
+//@ ensures members: r.Extras && s != nil && !old(has(r.Ast.Scopes, s)) ==> (forall k string :: has(s.Objects, k) && s.Objects[k] != nil ==> has(r.Ast.Objects, s.Objects[k]) && result.Objects[k] == r.Ast.Objects[s.Objects[k]])
+//@ ensures robjects_grow: forall k *dst.Object :: {has(r.Ast.Objects, k)} old(has(r.Ast.Objects, k)) ==> has(r.Ast.Objects, k) && r.Ast.Objects[k] == old(r.Ast.Objects[k])
+//@ ensures rscopes_grow: forall k *dst.Scope :: {has(r.Ast.Scopes, k)} old(has(r.Ast.Scopes, k)) ==> has(r.Ast.Scopes, k) && r.Ast.Scopes[k] == old(r.Ast.Scopes[k])
+//@ ensures rback_objects_grow: forall k *ast.Object :: {has(r.Dst.Objects, k)} old(has(r.Dst.Objects, k)) ==> has(r.Dst.Objects, k) && r.Dst.Objects[k] == old(r.Dst.Objects[k])
+//@ ensures rback_scopes_grow: forall k *ast.Scope :: {has(r.Dst.Scopes, k)} old(has(r.Dst.Scopes, k)) ==> has(r.Dst.Scopes, k) && r.Dst.Scopes[k] == old(r.Dst.Scopes[k])
+//@ ensures node_decl_grows: forall k *ast.Object :: {has(r.nodeDecl, k)} old(has(r.nodeDecl, k)) ==> has(r.nodeDecl, k) && r.nodeDecl[k] == old(r.nodeDecl[k])
+//@ ensures node_data_grows: forall k *ast.Object :: {has(r.nodeData, k)} old(has(r.nodeData, k)) ==> has(r.nodeData, k) && r.nodeData[k] == old(r.nodeData[k])
+//@ ensures deferred_keys_fresh: forall a *ast.Object :: {has(r.nodeDecl, a)} {has(r.nodeData, a)} (has(r.nodeDecl, a) && !old(has(r.nodeDecl, a)) ==> !wasAllocated(a)) && (has(r.nodeData, a) && !old(has(r.nodeData, a)) ==> !wasAllocated(a))
+//@ loop 1 invariant objects: r.robjMapsInv()
+//@ loop 1 invariant robjects_grow: forall k *dst.Object :: {has(r.Ast.Objects, k)} old(has(r.Ast.Objects, k)) ==> has(r.Ast.Objects, k) && r.Ast.Objects[k] == old(r.Ast.Objects[k])
+//@ loop 1 invariant rscopes_grow: forall k *dst.Scope :: {has(r.Ast.Scopes, k)} old(has(r.Ast.Scopes, k)) ==> has(r.Ast.Scopes, k) && r.Ast.Scopes[k] == old(r.Ast.Scopes[k])
+//@ loop 1 invariant rback_objects_grow: forall k *ast.Object :: {has(r.Dst.Objects, k)} old(has(r.Dst.Objects, k)) ==> has(r.Dst.Objects, k) && r.Dst.Objects[k] == old(r.Dst.Objects[k])
+//@ loop 1 invariant rback_scopes_grow: forall k *ast.Scope :: {has(r.Dst.Scopes, k)} old(has(r.Dst.Scopes, k)) ==> has(r.Dst.Scopes, k) && r.Dst.Scopes[k] == old(r.Dst.Scopes[k])
+//@ loop 1 invariant node_decl_grows: forall k *ast.Object :: {has(r.nodeDecl, k)} old(has(r.nodeDecl, k)) ==> has(r.nodeDecl, k) && r.nodeDecl[k] == old(r.nodeDecl[k])
+//@ loop 1 invariant node_data_grows: forall k *ast.Object :: {has(r.nodeData, k)} old(has(r.nodeData, k)) ==> has(r.nodeData, k) && r.nodeData[k] == old(r.nodeData[k])
+//@ loop 1 invariant deferred_keys_fresh: forall a *ast.Object :: {has(r.nodeDecl, a)} {has(r.nodeData, a)} (has(r.nodeDecl, a) && !old(has(r.nodeDecl, a)) ==> !wasAllocated(a)) && (has(r.nodeData, a) && !old(has(r.nodeData, a)) ==> !wasAllocated(a))
+//@ loop 1 invariant registered: has(r.Ast.Scopes, s) && r.Ast.Scopes[s] == out && has(r.Dst.Scopes, out) && r.Dst.Scopes[out] == s && !wasAllocated(out)
+//@ loop 1 invariant outer_kept: s.Outer == nil ? out.Outer == nil : has(r.Ast.Scopes, s.Outer) && out.Outer == r.Ast.Scopes[s.Outer]
+//@ loop 1 invariant names_so_far: forall k string :: has(out.Objects, k) == $visited[k]
+//@ loop 1 invariant visited_are_names: forall k string :: $visited[k] ==> has(s.Objects, k)
+//@ loop 1 invariant members_so_far: forall k string :: has(out.Objects, k) && s.Objects[k] != nil ==> has(r.Ast.Objects, s.Objects[k]) && out.Objects[k] == r.Ast.Objects[s.Objects[k]]
 
 // ---------------------------------------------------------------------------------------------
 // Package.save (load.go)
@@ -244,17 +350,20 @@ package decorator
 // restorer's package-name table only; it does not touch the position state, the node maps or the file set.
 //@ func (r *FileRestorer) updateImports
 //@ trusted
-//@ modifies allbut(heap(FileRestorer.cursor); heap(FileRestorer.lines); heap(FileRestorer.comments); heap(FileRestorer.cursorAtNewLine); heap(FileRestorer.base); heap(FileRestorer.Restorer); heap(FileRestorer.file); heap(FileRestorer.Name); heap(Restorer.Fset); heap(Restorer.Extras); heap(Restorer.Map); heap(token.FileSet.base); elems(int); elems(*ast.CommentGroup); map(dst.Node, ast.Node); map(ast.Node, dst.Node))
+//@ modifies allbut(heap(FileRestorer.cursor); heap(FileRestorer.lines); heap(FileRestorer.comments); heap(FileRestorer.cursorAtNewLine); heap(FileRestorer.base); heap(FileRestorer.Restorer); heap(FileRestorer.file); heap(FileRestorer.Name); heap(Restorer.Fset); heap(Restorer.Extras); heap(Restorer.Map); heap(token.FileSet.base); elems(int); elems(*ast.CommentGroup); map(dst.Node, ast.Node); map(ast.Node, dst.Node); heap(FileRestorer.nodeDecl); heap(FileRestorer.nodeData); map(*dst.Object, *ast.Object); map(*ast.Object, *dst.Object); map(*dst.Scope, *ast.Scope); map(*ast.Scope, *dst.Scope); map(*ast.Object, dst.Node))
 
 //@ func (r *FileRestorer) RestoreFile
 //@ ensures error_result: err != nil ==> result == nil
 //@ requires restorer: r.Restorer != nil && r.Ast.Nodes != nil && r.Dst.Nodes != nil
 //@ requires maps: r.mapsInv()
+//@ requires objects: r.robjMapsEntry()
 //@ assumes fileset_base_positive: forall s *token.FileSet :: s.base >= 1
 //@ loop 2 invariant inv: r.inv()
 //@ loop 2 invariant maps: r.mapsInv()
+//@ loop 2 invariant objects: r.robjMapsInv()
 //@ loop 3 invariant inv: r.inv()
 //@ loop 3 invariant maps: r.mapsInv()
+//@ loop 3 invariant objects: r.robjMapsInv()
 
 // ---------------------------------------------------------------------------------------------
 // decorateNode (decorator-node-generated.go), one verification unit per go/ast node type.
@@ -269,11 +378,18 @@ package decorator
 
 //@ func (f *fileDecorator) decorateNode
 //@ requires maps: f.dmapsInv()
+//@ requires objects: f.objMapsInv()
 //@ tracks maps: f.dmapsInv()
+//@ tracks objects: f.objMapsInv()
 //@ tracks dst_map_grows: forall k ast.Node :: {has(f.Dst.Nodes, k)} old(has(f.Dst.Nodes, k)) ==> has(f.Dst.Nodes, k) && f.Dst.Nodes[k] == old(f.Dst.Nodes[k])
 //@ tracks ast_map_grows: forall k dst.Node :: {has(f.Ast.Nodes, k)} old(has(f.Ast.Nodes, k)) ==> has(f.Ast.Nodes, k) && f.Ast.Nodes[k] == old(f.Ast.Nodes[k])
 //@ modifies map(ast.Node, dst.Node), map(dst.Node, ast.Node), map(*ast.Object, *dst.Object), map(*dst.Object, *ast.Object), map(*ast.Scope, *dst.Scope), map(*dst.Scope, *ast.Scope), newobjects
 //@ ensures maps: f.dmapsInv()
+//@ ensures objects: f.objMapsInv()
+//@ ensures objects_grow: forall k *ast.Object :: {has(f.Dst.Objects, k)} old(has(f.Dst.Objects, k)) ==> has(f.Dst.Objects, k) && f.Dst.Objects[k] == old(f.Dst.Objects[k])
+//@ ensures scopes_grow: forall k *ast.Scope :: {has(f.Dst.Scopes, k)} old(has(f.Dst.Scopes, k)) ==> has(f.Dst.Scopes, k) && f.Dst.Scopes[k] == old(f.Dst.Scopes[k])
+//@ ensures back_objects_grow: forall k *dst.Object :: {has(f.Ast.Objects, k)} old(has(f.Ast.Objects, k)) ==> has(f.Ast.Objects, k) && f.Ast.Objects[k] == old(f.Ast.Objects[k])
+//@ ensures back_scopes_grow: forall k *dst.Scope :: {has(f.Ast.Scopes, k)} old(has(f.Ast.Scopes, k)) ==> has(f.Ast.Scopes, k) && f.Ast.Scopes[k] == old(f.Ast.Scopes[k])
 //@ ensures mapped: err == nil ==> has(f.Dst.Nodes, n) && f.Dst.Nodes[n] == result && ref(result) != 0
 //@ ensures mapped_back: err == nil && !old(has(f.Dst.Nodes, n)) ==> has(f.Ast.Nodes, result) && f.Ast.Nodes[result] == n
 //@ ensures error_result: err != nil ==> result == nil
@@ -286,12 +402,36 @@ package decorator
 //@ foreach invariant backing: $i == 0 ? $dst == nil : (!wasAllocated(arr($dst)) && arr($dst) >= entry(allocCounter()) && allocated(arr($dst)))
 //@ foreach invariant old_rows: rowsKeptSinceLoopEntry()
 //@ foreach invariant maps: f.dmapsInv()
+//@ foreach invariant objects: f.objMapsInv()
+//@ foreach invariant objects_grow: forall k *ast.Object :: {has(f.Dst.Objects, k)} entry(has(f.Dst.Objects, k)) ==> has(f.Dst.Objects, k) && f.Dst.Objects[k] == entry(f.Dst.Objects[k])
+//@ foreach invariant scopes_grow: forall k *ast.Scope :: {has(f.Dst.Scopes, k)} entry(has(f.Dst.Scopes, k)) ==> has(f.Dst.Scopes, k) && f.Dst.Scopes[k] == entry(f.Dst.Scopes[k])
+//@ foreach invariant back_objects_grow: forall k *dst.Object :: {has(f.Ast.Objects, k)} entry(has(f.Ast.Objects, k)) ==> has(f.Ast.Objects, k) && f.Ast.Objects[k] == entry(f.Ast.Objects[k])
+//@ foreach invariant back_scopes_grow: forall k *dst.Scope :: {has(f.Ast.Scopes, k)} entry(has(f.Ast.Scopes, k)) ==> has(f.Ast.Scopes, k) && f.Ast.Scopes[k] == entry(f.Ast.Scopes[k])
 //@ foreach invariant dst_map_grows: forall k ast.Node :: {has(f.Dst.Nodes, k)} entry(has(f.Dst.Nodes, k)) ==> has(f.Dst.Nodes, k) && f.Dst.Nodes[k] == entry(f.Dst.Nodes[k])
 //@ foreach invariant ast_map_grows: forall k dst.Node :: {has(f.Ast.Nodes, k)} entry(has(f.Ast.Nodes, k)) ==> has(f.Ast.Nodes, k) && f.Ast.Nodes[k] == entry(f.Ast.Nodes[k])
 //@ case FuncDecl
 //@ assumes signature_not_shared: !has(f.Dst.Nodes, cast(n, type(*ast.FuncDecl)).Type)
 //@ assumes signature_present: cast(n, type(*ast.FuncDecl)).Type != nil
 //@ case Package
+//@ loop 1 invariant objects: f.objMapsInv()
+//@ loop 1 invariant objects_grow: forall k *ast.Object :: {has(f.Dst.Objects, k)} entry(has(f.Dst.Objects, k)) ==> has(f.Dst.Objects, k) && f.Dst.Objects[k] == entry(f.Dst.Objects[k])
+//@ loop 1 invariant scopes_grow: forall k *ast.Scope :: {has(f.Dst.Scopes, k)} entry(has(f.Dst.Scopes, k)) ==> has(f.Dst.Scopes, k) && f.Dst.Scopes[k] == entry(f.Dst.Scopes[k])
+//@ loop 1 invariant back_objects_grow: forall k *dst.Object :: {has(f.Ast.Objects, k)} entry(has(f.Ast.Objects, k)) ==> has(f.Ast.Objects, k) && f.Ast.Objects[k] == entry(f.Ast.Objects[k])
+//@ loop 1 invariant back_scopes_grow: forall k *dst.Scope :: {has(f.Ast.Scopes, k)} entry(has(f.Ast.Scopes, k)) ==> has(f.Ast.Scopes, k) && f.Ast.Scopes[k] == entry(f.Ast.Scopes[k])
+//@ loop 1 invariant registered: has(f.Dst.Nodes, $arg_n) && typeof(f.Dst.Nodes[$arg_n]) == type(*dst.Package) && !wasAllocated(ref(f.Dst.Nodes[$arg_n]))
+//@ loop 1 invariant scope_kept: cast($arg_n, type(*ast.Package)).Scope == nil ? cast(f.Dst.Nodes[$arg_n], type(*dst.Package)).Scope == nil : has(f.Dst.Scopes, cast($arg_n, type(*ast.Package)).Scope) && cast(f.Dst.Nodes[$arg_n], type(*dst.Package)).Scope == f.Dst.Scopes[cast($arg_n, type(*ast.Package)).Scope]
+//@ loop 1 invariant imports_members: forall k string :: has(cast(f.Dst.Nodes[$arg_n], type(*dst.Package)).Imports, k) && cast($arg_n, type(*ast.Package)).Imports[k] != nil ==> has(f.Dst.Objects, cast($arg_n, type(*ast.Package)).Imports[k]) && cast(f.Dst.Nodes[$arg_n], type(*dst.Package)).Imports[k] == f.Dst.Objects[cast($arg_n, type(*ast.Package)).Imports[k]]
+//@ loop 2 invariant objects: f.objMapsInv()
+//@ loop 2 invariant objects_grow: forall k *ast.Object :: {has(f.Dst.Objects, k)} entry(has(f.Dst.Objects, k)) ==> has(f.Dst.Objects, k) && f.Dst.Objects[k] == entry(f.Dst.Objects[k])
+//@ loop 2 invariant scopes_grow: forall k *ast.Scope :: {has(f.Dst.Scopes, k)} entry(has(f.Dst.Scopes, k)) ==> has(f.Dst.Scopes, k) && f.Dst.Scopes[k] == entry(f.Dst.Scopes[k])
+//@ loop 2 invariant back_objects_grow: forall k *dst.Object :: {has(f.Ast.Objects, k)} entry(has(f.Ast.Objects, k)) ==> has(f.Ast.Objects, k) && f.Ast.Objects[k] == entry(f.Ast.Objects[k])
+//@ loop 2 invariant back_scopes_grow: forall k *dst.Scope :: {has(f.Ast.Scopes, k)} entry(has(f.Ast.Scopes, k)) ==> has(f.Ast.Scopes, k) && f.Ast.Scopes[k] == entry(f.Ast.Scopes[k])
+//@ loop 2 invariant registered: has(f.Dst.Nodes, $arg_n) && typeof(f.Dst.Nodes[$arg_n]) == type(*dst.Package) && !wasAllocated(ref(f.Dst.Nodes[$arg_n]))
+//@ loop 2 invariant scope_kept: cast($arg_n, type(*ast.Package)).Scope == nil ? cast(f.Dst.Nodes[$arg_n], type(*dst.Package)).Scope == nil : has(f.Dst.Scopes, cast($arg_n, type(*ast.Package)).Scope) && cast(f.Dst.Nodes[$arg_n], type(*dst.Package)).Scope == f.Dst.Scopes[cast($arg_n, type(*ast.Package)).Scope]
+//@ loop 2 invariant imports_members: forall k string :: has(cast(f.Dst.Nodes[$arg_n], type(*dst.Package)).Imports, k) && cast($arg_n, type(*ast.Package)).Imports[k] != nil ==> has(f.Dst.Objects, cast($arg_n, type(*ast.Package)).Imports[k]) && cast(f.Dst.Nodes[$arg_n], type(*dst.Package)).Imports[k] == f.Dst.Objects[cast($arg_n, type(*ast.Package)).Imports[k]]
+//@ loop 1 invariant imports_so_far: forall k string :: has(cast(f.Dst.Nodes[$arg_n], type(*dst.Package)).Imports, k) == $visited[k]
+//@ loop 1 invariant imports_visited: forall k string :: $visited[k] ==> has(cast($arg_n, type(*ast.Package)).Imports, k)
+//@ loop 2 invariant imports_names: forall k string :: has(cast(f.Dst.Nodes[$arg_n], type(*dst.Package)).Imports, k) == has(cast($arg_n, type(*ast.Package)).Imports, k)
 //@ loop 1 invariant maps: f.dmapsInv()
 //@ loop 1 invariant dst_map_grows: forall k ast.Node :: {has(f.Dst.Nodes, k)} entry(has(f.Dst.Nodes, k)) ==> has(f.Dst.Nodes, k) && f.Dst.Nodes[k] == entry(f.Dst.Nodes[k])
 //@ loop 1 invariant ast_map_grows: forall k dst.Node :: {has(f.Ast.Nodes, k)} entry(has(f.Ast.Nodes, k)) ==> has(f.Ast.Nodes, k) && f.Ast.Nodes[k] == entry(f.Ast.Nodes[k])
@@ -302,6 +442,27 @@ package decorator
 // The callees of decorateNode (each is, or will be, a verification unit of its own).
 //@ func (f *fileDecorator) decorateObject
 //@ requires maps: f.dmapsInv()
+//@ requires objects: f.objMapsInv()
+//@ tracks maps: f.dmapsInv()
+//@ tracks objects: f.objMapsInv()
+//@ tracks objects_grow: forall k *ast.Object :: {has(f.Dst.Objects, k)} old(has(f.Dst.Objects, k)) ==> has(f.Dst.Objects, k) && f.Dst.Objects[k] == old(f.Dst.Objects[k])
+//@ tracks back_objects_grow: forall k *dst.Object :: {has(f.Ast.Objects, k)} old(has(f.Ast.Objects, k)) ==> has(f.Ast.Objects, k) && f.Ast.Objects[k] == old(f.Ast.Objects[k])
+//@ ensures objects: f.objMapsInv()
+//@ ensures nil_in_nil_out: o == nil ==> result == nil && err == nil
+//@ ensures memo_hit: o != nil && old(has(f.Dst.Objects, o)) ==> result == old(f.Dst.Objects[o]) && err == nil
+//@ ensures registered: err == nil && o != nil ==> has(f.Dst.Objects, o) && f.Dst.Objects[o] == result
+//@ ensures registered_back: err == nil && o != nil && !old(has(f.Dst.Objects, o)) ==> !wasAllocated(result) && has(f.Ast.Objects, result) && f.Ast.Objects[result] == o
+//@ ensures kind_and_name: err == nil && o != nil && !old(has(f.Dst.Objects, o)) ==> result.Kind == o.Kind && result.Name == o.Name
+//@ ensures data_int: err == nil && o != nil && !old(has(f.Dst.Objects, o)) && typeof(o.Data) == type(int) ==> result.Data == o.Data
+//@ ensures data_scope: err == nil && o != nil && !old(has(f.Dst.Objects, o)) && typeof(o.Data) == type(*ast.Scope) ==> typeof(result.Data) == type(*dst.Scope) && ref(result.Data) == f.Dst.Scopes[cast(o.Data, type(*ast.Scope))]
+//@ ensures decl_scope: err == nil && o != nil && !old(has(f.Dst.Objects, o)) && typeof(o.Decl) == type(*ast.Scope) ==> typeof(result.Decl) == type(*dst.Scope) && ref(result.Decl) == f.Dst.Scopes[cast(o.Decl, type(*ast.Scope))]
+//@ ensures decl_node: err == nil && o != nil && !old(has(f.Dst.Objects, o)) && implements(o.Decl, type(ast.Node)) ==> has(f.Dst.Nodes, o.Decl) && result.Decl == f.Dst.Nodes[o.Decl]
+//@ ensures data_node: err == nil && o != nil && !old(has(f.Dst.Objects, o)) && implements(o.Data, type(ast.Node)) && typeof(o.Data) != type(*ast.Scope) ==> has(f.Dst.Nodes, o.Data) && result.Data == f.Dst.Nodes[o.Data]
+//@ ensures nothing_else: err == nil && o != nil && !old(has(f.Dst.Objects, o)) && o.Decl == nil ==> result.Decl == nil
+//@ ensures objects_grow: forall k *ast.Object :: {has(f.Dst.Objects, k)} old(has(f.Dst.Objects, k)) ==> has(f.Dst.Objects, k) && f.Dst.Objects[k] == old(f.Dst.Objects[k])
+//@ ensures scopes_grow: forall k *ast.Scope :: {has(f.Dst.Scopes, k)} old(has(f.Dst.Scopes, k)) ==> has(f.Dst.Scopes, k) && f.Dst.Scopes[k] == old(f.Dst.Scopes[k])
+//@ ensures back_objects_grow: forall k *dst.Object :: {has(f.Ast.Objects, k)} old(has(f.Ast.Objects, k)) ==> has(f.Ast.Objects, k) && f.Ast.Objects[k] == old(f.Ast.Objects[k])
+//@ ensures back_scopes_grow: forall k *dst.Scope :: {has(f.Ast.Scopes, k)} old(has(f.Ast.Scopes, k)) ==> has(f.Ast.Scopes, k) && f.Ast.Scopes[k] == old(f.Ast.Scopes[k])
 //@ modifies map(ast.Node, dst.Node), map(dst.Node, ast.Node), map(*ast.Object, *dst.Object), map(*dst.Object, *ast.Object), map(*ast.Scope, *dst.Scope), map(*dst.Scope, *ast.Scope), newobjects
 //@ ensures maps: f.dmapsInv()
 //@ ensures error_result: err != nil ==> result == nil
@@ -310,6 +471,37 @@ package decorator
 
 //@ func (f *fileDecorator) decorateScope
 //@ requires maps: f.dmapsInv()
+//@ requires objects: f.objMapsInv()
+//@ tracks maps: f.dmapsInv()
+//@ tracks objects: f.objMapsInv()
+//@ tracks scopes_grow: forall k *ast.Scope :: {has(f.Dst.Scopes, k)} old(has(f.Dst.Scopes, k)) ==> has(f.Dst.Scopes, k) && f.Dst.Scopes[k] == old(f.Dst.Scopes[k])
+//@ tracks back_objects_grow: forall k *dst.Object :: {has(f.Ast.Objects, k)} old(has(f.Ast.Objects, k)) ==> has(f.Ast.Objects, k) && f.Ast.Objects[k] == old(f.Ast.Objects[k])
+//@ tracks back_scopes_grow: forall k *dst.Scope :: {has(f.Ast.Scopes, k)} old(has(f.Ast.Scopes, k)) ==> has(f.Ast.Scopes, k) && f.Ast.Scopes[k] == old(f.Ast.Scopes[k])
+//@ ensures objects: f.objMapsInv()
+//@ ensures nil_in_nil_out: s == nil ==> result == nil && err == nil
+//@ ensures memo_hit: s != nil && old(has(f.Dst.Scopes, s)) ==> result == old(f.Dst.Scopes[s]) && err == nil
+//@ ensures registered: err == nil && s != nil ==> has(f.Dst.Scopes, s) && f.Dst.Scopes[s] == result
+//@ ensures registered_back: err == nil && s != nil && !old(has(f.Dst.Scopes, s)) ==> !wasAllocated(result) && has(f.Ast.Scopes, result) && f.Ast.Scopes[result] == s
+//@ ensures outer: err == nil && s != nil && !old(has(f.Dst.Scopes, s)) ==> (s.Outer == nil ? result.Outer == nil : has(f.Dst.Scopes, s.Outer) && result.Outer == f.Dst.Scopes[s.Outer])
+//@ ensures same_names: err == nil && s != nil && !old(has(f.Dst.Scopes, s)) ==> (forall k string :: has(result.Objects, k) == has(s.Objects, k))
+//@ ensures members: err == nil && s != nil && !old(has(f.Dst.Scopes, s)) ==> (forall k string :: has(s.Objects, k) && s.Objects[k] != nil ==> has(f.Dst.Objects, s.Objects[k]) && result.Objects[k] == f.Dst.Objects[s.Objects[k]])
+//@ ensures objects_grow: forall k *ast.Object :: {has(f.Dst.Objects, k)} old(has(f.Dst.Objects, k)) ==> has(f.Dst.Objects, k) && f.Dst.Objects[k] == old(f.Dst.Objects[k])
+//@ ensures scopes_grow: forall k *ast.Scope :: {has(f.Dst.Scopes, k)} old(has(f.Dst.Scopes, k)) ==> has(f.Dst.Scopes, k) && f.Dst.Scopes[k] == old(f.Dst.Scopes[k])
+//@ ensures back_objects_grow: forall k *dst.Object :: {has(f.Ast.Objects, k)} old(has(f.Ast.Objects, k)) ==> has(f.Ast.Objects, k) && f.Ast.Objects[k] == old(f.Ast.Objects[k])
+//@ ensures back_scopes_grow: forall k *dst.Scope :: {has(f.Ast.Scopes, k)} old(has(f.Ast.Scopes, k)) ==> has(f.Ast.Scopes, k) && f.Ast.Scopes[k] == old(f.Ast.Scopes[k])
+//@ loop 1 invariant maps: f.dmapsInv()
+//@ loop 1 invariant objects: f.objMapsInv()
+//@ loop 1 invariant scopes_grow: forall k *ast.Scope :: {has(f.Dst.Scopes, k)} old(has(f.Dst.Scopes, k)) ==> has(f.Dst.Scopes, k) && f.Dst.Scopes[k] == old(f.Dst.Scopes[k])
+//@ loop 1 invariant dst_map_grows: forall k ast.Node :: {has(f.Dst.Nodes, k)} old(has(f.Dst.Nodes, k)) ==> has(f.Dst.Nodes, k) && f.Dst.Nodes[k] == old(f.Dst.Nodes[k])
+//@ loop 1 invariant ast_map_grows: forall k dst.Node :: {has(f.Ast.Nodes, k)} old(has(f.Ast.Nodes, k)) ==> has(f.Ast.Nodes, k) && f.Ast.Nodes[k] == old(f.Ast.Nodes[k])
+//@ loop 1 invariant back_objects_grow: forall k *dst.Object :: {has(f.Ast.Objects, k)} old(has(f.Ast.Objects, k)) ==> has(f.Ast.Objects, k) && f.Ast.Objects[k] == old(f.Ast.Objects[k])
+//@ loop 1 invariant back_scopes_grow: forall k *dst.Scope :: {has(f.Ast.Scopes, k)} old(has(f.Ast.Scopes, k)) ==> has(f.Ast.Scopes, k) && f.Ast.Scopes[k] == old(f.Ast.Scopes[k])
+//@ loop 1 invariant objects_grow: forall k *ast.Object :: {has(f.Dst.Objects, k)} old(has(f.Dst.Objects, k)) ==> has(f.Dst.Objects, k) && f.Dst.Objects[k] == old(f.Dst.Objects[k])
+//@ loop 1 invariant registered: has(f.Dst.Scopes, s) && f.Dst.Scopes[s] == out && has(f.Ast.Scopes, out) && f.Ast.Scopes[out] == s && !wasAllocated(out)
+//@ loop 1 invariant outer_kept: s.Outer == nil ? out.Outer == nil : has(f.Dst.Scopes, s.Outer) && out.Outer == f.Dst.Scopes[s.Outer]
+//@ loop 1 invariant names_so_far: forall k string :: has(out.Objects, k) == $visited[k]
+//@ loop 1 invariant visited_are_names: forall k string :: $visited[k] ==> has(s.Objects, k)
+//@ loop 1 invariant members_so_far: forall k string :: has(out.Objects, k) && s.Objects[k] != nil ==> has(f.Dst.Objects, s.Objects[k]) && out.Objects[k] == f.Dst.Objects[s.Objects[k]]
 //@ modifies map(ast.Node, dst.Node), map(dst.Node, ast.Node), map(*ast.Object, *dst.Object), map(*dst.Object, *ast.Object), map(*ast.Scope, *dst.Scope), map(*dst.Scope, *ast.Scope), newobjects
 //@ ensures maps: f.dmapsInv()
 //@ ensures error_result: err != nil ==> result == nil
@@ -318,6 +510,12 @@ package decorator
 
 //@ func (f *fileDecorator) decorateSelectorExpr
 //@ requires maps: f.dmapsInv()
+//@ requires objects: f.objMapsInv()
+//@ ensures objects: f.objMapsInv()
+//@ ensures objects_grow: forall k *ast.Object :: {has(f.Dst.Objects, k)} old(has(f.Dst.Objects, k)) ==> has(f.Dst.Objects, k) && f.Dst.Objects[k] == old(f.Dst.Objects[k])
+//@ ensures scopes_grow: forall k *ast.Scope :: {has(f.Dst.Scopes, k)} old(has(f.Dst.Scopes, k)) ==> has(f.Dst.Scopes, k) && f.Dst.Scopes[k] == old(f.Dst.Scopes[k])
+//@ ensures back_objects_grow: forall k *dst.Object :: {has(f.Ast.Objects, k)} old(has(f.Ast.Objects, k)) ==> has(f.Ast.Objects, k) && f.Ast.Objects[k] == old(f.Ast.Objects[k])
+//@ ensures back_scopes_grow: forall k *dst.Scope :: {has(f.Ast.Scopes, k)} old(has(f.Ast.Scopes, k)) ==> has(f.Ast.Scopes, k) && f.Ast.Scopes[k] == old(f.Ast.Scopes[k])
 //@ modifies map(ast.Node, dst.Node), map(dst.Node, ast.Node), map(*ast.Object, *dst.Object), map(*dst.Object, *ast.Object), map(*ast.Scope, *dst.Scope), map(*dst.Scope, *ast.Scope), newobjects
 //@ ensures maps: f.dmapsInv()
 //@ ensures error_result: err != nil ==> result == nil
@@ -354,3 +552,19 @@ package decorator
 //@ requires maps: d.decMapsInv()
 //@ ensures error_result: err != nil ==> result == nil
 //@ loop 1 invariant maps: d.decMapsInv()
+
+// ---------------------------------------------------------------------------------------------
+// Object and scope graphs (decorator.go, restorer.go)
+//
+// Memoisation through the object/scope maps makes the dst graph isomorphic to the ast graph: an
+// object already in the map is returned as is, a new one is allocated, registered in both maps
+// before anything it refers to is converted (so that cycles terminate on the memo hit), and copies
+// kind and name; its declaration and data are the counterparts of the original's.
+
+//@ pred (f *fileDecorator) objMapsInv() bool {
+//@   f.Dst.Objects != nil && f.Ast.Objects != nil && f.Dst.Scopes != nil && f.Ast.Scopes != nil &&
+//@   (forall o *ast.Object :: {has(f.Dst.Objects, o)} has(f.Dst.Objects, o) ==> o != nil && allocated(o) && f.Dst.Objects[o] != nil && allocated(f.Dst.Objects[o])) &&
+//@   (forall s *ast.Scope :: {has(f.Dst.Scopes, s)} has(f.Dst.Scopes, s) ==> s != nil && allocated(s) && f.Dst.Scopes[s] != nil && allocated(f.Dst.Scopes[s])) &&
+//@   (forall d *dst.Object :: {has(f.Ast.Objects, d)} has(f.Ast.Objects, d) ==> allocated(d)) &&
+//@   (forall d *dst.Scope :: {has(f.Ast.Scopes, d)} has(f.Ast.Scopes, d) ==> allocated(d))
+//@ }
